@@ -168,7 +168,9 @@ def gen_hw(rng):
     if has_add:
         b += "  - component: FPAdd\n    bindings:\n    - op: add\n"
     if has_seq:
-        b += "  - component: Seq\n    bindings:\n" + "".join("    - rank: %s\n" % r for r in lo)
+        # bound to the loop ranks, or (stable: decided by the specification text, not by a further draw) to the root ranks of the Einsum
+        seq_ranks = lo0 if (part and len(y) % 2 == 0) else lo
+        b += "  - component: Seq\n    bindings:\n" + "".join("    - rank: %s\n" % r for r in seq_ranks)
     full = y + fmt + arch + b
     cfg = {r: (4 if r in part else 3) for rs in decl.values() for r in rs}
     plain = mk_yaml(decl, exprs, ro=ro, part={out: part} if part else None, lo={out: lo})
@@ -207,9 +209,23 @@ def hw_core():
                      "  - component: FPMul\n    bindings:\n    - op: mul\n" % (name, r1, L1, r2, L2))
                 out.append({"yaml": y + fmt + arch + b, "configs": [{r: 2 for rs in decl.values() for r in rs}], "family": "hw-core-" + name, "key": name + L1 + L2,
                             "hw": True, "plain_yaml": y, "arch": {}, "cap": 30})
+    # a sequencer bound to the ROOT name of a partitioned rank (and to an unpartitioned one), and to the partition levels
+    for seqr in (["K", "M"], ["K1", "M", "K0"]):
+        decl = {"A": ["K", "M"], "B": ["K"], "Z": ["M"]}
+        lo = ["K1", "M", "K0"]
+        ro = {"A": ["K1", "M", "K0"], "B": ["K1", "K0"], "Z": ["M"]}
+        y = mk_yaml(decl, ["Z[m] = A[k, m] * B[k]"], part={"Z": {"K": ["uniform_shape(2)"]}}, lo={"Z": lo}, st={"Z": {"space": [], "time": lo}})
+        fmt = "format:\n" + "".join("  %s:\n    default:\n      rank-order: [%s]\n" % (t, ", ".join(ro[t])) + "".join("      %s:\n        format: C\n        pbits: 32\n" % r for r in ro[t]) for t in decl)
+        arch = ("architecture:\n  Accel:\n  - name: System\n    attributes:\n      clock_frequency: 3\n    local:\n    - name: Seq\n      class: Sequencer\n      attributes:\n        num_ranks: %d\n"
+                "    - name: FPMul\n      class: Compute\n      attributes:\n        type: mul\n" % len(seqr))
+        b = ("bindings:\n  Z:\n  - config: Accel\n    prefix: tmp/seq\n  - component: Seq\n    bindings:\n" + "".join("    - rank: %s\n" % r for r in seqr) +
+             "  - component: FPMul\n    bindings:\n    - op: mul\n")
+        out.append({"yaml": y + fmt + arch + b, "configs": [{"K": 4, "M": 2}], "family": "hw-core-seq", "key": "seq" + "".join(seqr), "hw": True,
+                    "plain_yaml": mk_yaml(decl, ["Z[m] = A[k, m] * B[k]"], part={"Z": {"K": ["uniform_shape(2)"]}}, lo={"Z": lo}), "arch": {}, "cap": 12})
     out += eager_core()
     out += flatten_core()
     out += stack_core()
+    out += cascade_core()
     return out
 
 
@@ -407,3 +423,29 @@ def stack_core(n=5):
                 break
         _STACK_CORE = out
     return [dict(sp) for sp in _STACK_CORE]
+
+
+_CASCADE_CORE = None
+
+
+def cascade_core(n=3):
+    """Fixed core: metrics-mode cascades on ONE configuration in which no Einsum binds a functional unit and no rank is spatial -- all
+    Einsums fuse into one block whose only timed component is the shared memory (first n of gen_hw_cascade under fixed generator seeds)."""
+    global _CASCADE_CORE
+    if _CASCADE_CORE is None:
+        import execpipe
+        out = []
+        for i in range(800):
+            sp = gen_hw_cascade(random.Random(9000 + i))
+            y = sp["yaml"]
+            if "component: FU" in y or "Accel2" in y or any(d["space"] for d in sp["fusion_descs"]):
+                continue
+            try:
+                execpipe.compile_text(y, hw=True)
+            except Exception:
+                continue
+            out.append(dict(sp, family="hw-core-cascade", key="casc%d" % i))
+            if len(out) >= n:
+                break
+        _CASCADE_CORE = out
+    return [dict(sp) for sp in _CASCADE_CORE]
